@@ -48,6 +48,15 @@ def payloads(rng, tier):
         mask = gen.funnel_mask(rng, k) if i % 4 else (gen.core_with_tails(rng, k) if i % 8 else gen.chain_mask(rng, k))
         yield "generated", {"k": k, "mask": mask, "t": 1, "vsel": rng.random(), "bits": gen.message(rng, 24),
                             "fast": rng.random() < 0.3, "table_seed": None}
+    # a call preceded by the encoding of a RELATED message on the same graph: same length and same CRC-32 (what a memo keyed by a
+    # lossy checksum of the message cannot tell apart), or same length and a different top half
+    for i in range({"quick": 80, "thorough": 800, "search": 60}[tier]):
+        k = rng.randint(1, kmax)
+        L = rng.choice([40, 64, 96, 128, 200])
+        bits = [1] + [rng.randint(0, 1) for _ in range(L - 1)] if i % 2 else [0] * (L // 2) + [rng.randint(0, 1) for _ in range(L - L // 2)]
+        prev = gen.checksum_twin(rng, bits) if i % 3 else [1 - b for b in bits[:L // 2]] + bits[L // 2:]
+        yield "generated", {"k": k, "mask": gen.random_mask(rng, k), "t": rng.choice([1, 2, 3, 4]), "vsel": rng.random(), "bits": bits,
+                            "fast": False, "table_seed": None, "prev": prev}
     for _ in range(n // 10):
         k = rng.randint(1, 2)
         rows = gen.arc_subset(rng, k, keep=rng.choice([0.2, 0.4, 0.6]))
@@ -90,6 +99,11 @@ def build(stream, p):
     reads = {}
 
     def run():
+        if p.get("prev"):
+            try:          # the related message first (same graph, same options): it must leave nothing behind
+                dsw.encode(np.array(p["prev"], dtype=int), np.array(rows, dtype=int), v0, is_faster=fast, shuffles=tab)
+            except Exception:  # noqa
+                pass
         a = gen.counting(rows, 2 * fuel)
         s = dsw.encode(np.array(bits, dtype=int), a, v0, is_faster=fast, shuffles=tab)
         reads["n"] = gen.CountingAccessor.reads
